@@ -174,6 +174,18 @@ func c17DiffCaseRun(r *rand.Rand, rep *runReport, cw *caseWriter, id int, diff, 
 			ex := reporter.VerifNewExisting(e[0].(string), e[2].(string), e[1].(int), nil)
 			eqs = append(eqs, coqPair(coqEC(e[0].(string), e[1].(int), e[2].(string)), coqBool(reporter.VerifGithubIsEqual(files, ex, rp))))
 		}
+		// existing comments that differ from the one Create would post in exactly ONE of the fields IsEqual reads (path, line -
+		// including the line 0 GitHub reports for an OUTDATED comment - and text): none of them covers the problem
+		for _, e := range c17OneFieldOff(p.Path, line, p.Text) {
+			ex := reporter.VerifNewExisting(e.path, e.text, e.line, nil)
+			got := reporter.VerifGithubIsEqual(files, ex, rp)
+			eqs = append(eqs, coqPair(coqEC(e.path, e.line, e.text), coqBool(got)))
+			rep.hist("isequal-one-field-off:" + e.field)
+			if got {
+				rep.fail(fmt.Sprintf("diff%d-gh", id), fmt.Sprintf("GitHub: an existing comment that differs from the pending one in its %s (path %q line %d; the pending comment belongs on %q line %d) is recognised by IsEqual as covering the problem: no comment is ever created at the problem's line",
+					e.field, e.path, e.line, p.Path, line), c17DiffCase{Diff: diff, Kind: kind, Pending: []memPending{p}})
+			}
+		}
 		gh = append(gh, fmt.Sprintf("(%s, %s, %s, %s, %s)", coqList(fs), coqPC(p), coqBool(side == "LEFT"), coqZ(int64(line)), coqList(eqs)))
 		// law L1 on the real GitHub functions: what Create posts, listed back, is recognised
 		if !reporter.VerifGithubIsEqual(files, reporter.VerifNewExisting(p.Path, p.Text, line, nil), rp) {
@@ -198,6 +210,15 @@ func c17DiffCaseRun(r *rand.Rand, rep *runReport, cw *caseWriter, id int, diff, 
 		for _, e := range [][3]any{{p.Path, p.Line, p.Text}, {p.Path, p.Line + 1, p.Text}, {p.Path, p.Line, "\n\n" + p.Text + "\n"}, {p.Path + "x", p.Line, p.Text}, {p.Path, p.Line, "y" + p.Text}} {
 			ex := reporter.VerifNewExisting(e[0].(string), e[2].(string), e[1].(int), nil)
 			geqs = append(geqs, coqPair(coqEC(e[0].(string), e[1].(int), e[2].(string)), coqBool(reporter.VerifGitlabIsEqual(ex, rp))))
+		}
+		for _, e := range c17OneFieldOff(p.Path, p.Line, p.Text) {
+			ex := reporter.VerifNewExisting(e.path, e.text, e.line, nil)
+			got := reporter.VerifGitlabIsEqual(ex, rp)
+			geqs = append(geqs, coqPair(coqEC(e.path, e.line, e.text), coqBool(got)))
+			if got {
+				rep.fail(fmt.Sprintf("diff%d-gl", id), fmt.Sprintf("GitLab: an existing comment that differs from the pending one in its %s (path %q line %d; the pending comment belongs on %q line %d) is recognised by IsEqual as covering the problem",
+					e.field, e.path, e.line, p.Path, p.Line), c17DiffCase{Diff: diff, Kind: kind, Pending: []memPending{p}})
+			}
 		}
 		gl = append(gl, fmt.Sprintf("(%s, %s, %s, %s)", coqList(ds), coqPC(p), pos, coqList(geqs)))
 		if ok && p.Line > 0 {
@@ -245,4 +266,34 @@ func c17Str(s string) string {
 		}
 	}
 	return `"` + strings.ReplaceAll(s, `"`, `""`) + `"`
+}
+
+type c17Variant struct {
+	field, path, text string
+	line              int
+}
+
+// c17OneFieldOff: comments equal to (path, line, text) in all but one field, for each field a platform's IsEqual reads.
+// Line variants include 0 (what List reports for a comment without a line: GitHub "outdated", line null) and neighbours.
+func c17OneFieldOff(path string, line int, text string) []c17Variant {
+	var out []c17Variant
+	for _, l := range []int{0, line - 1, line + 1, line + 7} {
+		if l != line {
+			out = append(out, c17Variant{field: fmt.Sprintf("line(%+d)", l-line), path: path, text: text, line: l})
+		}
+	}
+	if line != 0 {
+		out[0].field = "line(none: outdated)"
+	}
+	for _, pth := range []string{"", "other/" + path, path + ".bak"} {
+		if pth != path {
+			out = append(out, c17Variant{field: "path", path: pth, text: text, line: line})
+		}
+	}
+	for _, t := range []string{text + " (edited)", "", "x" + text} {
+		if strings.Trim(t, "\n") != strings.Trim(text, "\n") {
+			out = append(out, c17Variant{field: "text", path: path, text: t, line: line})
+		}
+	}
+	return out
 }
